@@ -516,7 +516,9 @@ double iwstrtod(const char *str, char **end) {
       }
       e = (*p++ - '0');
       while (*p && iwchars_is_digit(*p)) {
-        e = e * 10 + (*p - '0');
+        if (e < 100000) { // pow(10, +-100000) is already inf / 0: no need to overflow `e`
+          e = e * 10 + (*p - '0');
+        }
         ++p;
       }
       e *= sign;
